@@ -267,7 +267,26 @@ def check_pins(pins):
     return bad, nm, na
 
 
-def render(schemas, pairs, pins=None, allow=None):
+def extract_versions(repo):
+    """(file, SERIALIZATION_VERSION, MIN_SERIALIZATION_VERSION) of every persisted top-level object"""
+    root = os.path.join(repo, "lightning", "src")
+    out = []
+    for dp, dn, fn in sorted(os.walk(root)):
+        dn.sort()
+        for f in sorted(fn):
+            if not f.endswith(".rs"):
+                continue
+            src = strip_comments(open(os.path.join(dp, f)).read())
+            v = re.search(r"const\s+SERIALIZATION_VERSION\s*:\s*u8\s*=\s*(\d+)\s*;", src)
+            m = re.search(r"const\s+MIN_SERIALIZATION_VERSION\s*:\s*u8\s*=\s*(\d+)\s*;", src)
+            if v and m:
+                out.append((f, int(v.group(1)), int(m.group(1))))
+            elif v or m:
+                raise Refused("%s: only one of SERIALIZATION_VERSION / MIN_SERIALIZATION_VERSION found" % f)
+    return out
+
+
+def render(schemas, pairs, pins=None, allow=None, versions=None):
     L = ["(** GENERATED by tools/codec/persist_schemas.py from lightning/src -- do not edit.",
          "    TLV numbers and kinds of every persistence macro invocation; field codecs are FRest (framing only). *)",
          "Require Import LdkV.Prim.U64 LdkV.Codec.Combinators LdkV.Codec.Tlv.",
@@ -292,6 +311,10 @@ def render(schemas, pairs, pins=None, allow=None):
         L.append("].")
         L.append("Definition pin_ok (p : string * Z * string * string * bool) : bool :=")
         L.append("  let '(_, _, w, r, allowlisted) := p in String.eqb w r || allowlisted.")
+    if versions is not None:
+        L.append("")
+        L.append("(** (file, SERIALIZATION_VERSION, MIN_SERIALIZATION_VERSION) of every persisted top-level object *)")
+        L.append("Definition persist_versions : list (string * Z * Z) := [" + "; ".join('("%s", %d, %d)' % v for v in versions) + "].")
     return "\n".join(L) + "\n"
 
 
@@ -304,7 +327,8 @@ def generate(repo):
     except FileNotFoundError:
         allow = set()
     bad, nm, na = check_pins(pins)
-    return render(schemas, pairs, pins, allow), {"n_pins": len(pins), "n_pin_name_matches": nm, "n_pin_allowlisted": na,
+    versions = extract_versions(repo)
+    return render(schemas, pairs, pins, allow, versions), {"versions": versions,"n_pins": len(pins), "n_pin_name_matches": nm, "n_pin_allowlisted": na,
                                     "pin_violations": [{k: p[k] for k in ("file", "type", "write", "read")} for p in bad],"n_schemas": len(schemas), "n_pairs": len(pairs),
                                     "n_entries": sum(len(e) for _, e in schemas),
                                     "names": [n for n, _ in schemas]}
